@@ -119,11 +119,19 @@ def r2_associativity(ctx: Ctx) -> None:
     acc = _rank_accessor(ctx)
     left_forms = ["OPERATOR_PRECEDENCE[operator_stack[-1].token.value]"] + ([f"{acc.name}(operator_stack[-1])"] if acc else [])
     right_forms = ["current_precedence"] + ([f"{acc.name}(expr)"] if acc else [])
+    cur_name = "current_precedence"
+    for c in conj:
+        # the incoming operator's rank may sit in a local of any name, as long as that local is bound once in the function
+        if isinstance(c, ast.Compare) and len(c.ops) == 1 and unparse(c.left) in left_forms and isinstance(c.comparators[0], ast.Name):
+            binds = [n for n in walk_no_nested(sy.node) if isinstance(n, ast.Assign) and unparse(n.targets[0]) == c.comparators[0].id]
+            if len(binds) == 1:
+                cur_name = c.comparators[0].id
+                right_forms = [cur_name] + right_forms[1:]
     for c in conj:
         if isinstance(c, ast.Compare) and len(c.ops) == 1 and unparse(c.left) in left_forms and unparse(c.comparators[0]) in right_forms:
             strictness = type(c.ops[0]).__name__
             cmp_ok = isinstance(c.ops[0], ast.LtE)
-    cur = [n for n in walk_no_nested(sy.node) if isinstance(n, ast.Assign) and unparse(n.targets[0]) == "current_precedence"]
+    cur = [n for n in walk_no_nested(sy.node) if isinstance(n, ast.Assign) and unparse(n.targets[0]) == cur_name]
     if cur:
         v = unparse(cur[0].value)
         ctx.check(v in ([f"{acc.name}(expr)"] if acc else []) + ["OPERATOR_PRECEDENCE[expr.token.value] if isinstance(expr, BinOp) else 2", "OPERATOR_PRECEDENCE[expr.token.value]"],
